@@ -361,6 +361,8 @@ pub struct Ctx<F: Fam> {
     pub sets: [SetSlot<F>; 2],
     pub meta: [Meta; 4],
     pub z: crate::zst::ZState,
+    /// owner tags of an unexpected panic inside the next guarded call on the zero-sized collections
+    pub z_panic_tags: Option<Vec<Prop>>,
     pub fresh: u32,
     pub universe: u32,
     pub op_index: usize,
@@ -433,6 +435,7 @@ impl<F: Fam> Ctx<F> {
             sets: [t0, t1],
             meta: [m0, m1, m2, m3],
             z: crate::zst::ZState::new(case.hashers[0]),
+            z_panic_tags: None,
             fresh: 0,
             universe: case.universe.max(1),
             op_index: 0,
